@@ -85,6 +85,9 @@ func c16Configs(tier string) []c16Config {
 	// group consumers / feeders whose graph nodes are not at index 0, plain chains, a decorator
 	add(one, []*uFunc{pA, rCA, rAgB, fBg, pDd}, []*uFunc{dA}, []int{2, 3, 4})
 	add(one, []*uFunc{pA, pB, pG, fG1, pBn}, []*uFunc{dA, dG}, []int{3})
+	// group consumers whose group field sits in a nested parameter object, with
+	// dependants of their result (so that some other node comes first)
+	add(one, []*uFunc{pGnest, pD, fG1, pDd}, nil, []int{2, 3})
 	if q {
 		add(chain, []*uFunc{rCA, rAgB, fBg, pDd}, nil, []int{3})
 		add(fork, []*uFunc{pA, pB, fG1, pG}, nil, []int{3})
